@@ -179,6 +179,9 @@ def scope(model, family: str, schema_id: str, size: int, **over) -> dict:
     elif family == "iso_attr":
         s = {"types": ["doc", "paragraph", "iso", "text"], "texts": ["a"], "attrs": {"iso": [{"id": 1}, {"id": 2}]},
              "max_children": 3}
+    elif family == "lowbyte":  # code units that differ only in their HIGH byte (U+0061 / U+0161, U+0030 / U+0430)
+        s = {"types": ["doc", "paragraph", "text"], "texts": ["a", "\u0161", "a\u0161", "\u0161a", "0", "\u0430"],
+             "max_children": 2}
     elif family == "attrs_sub":  # attribute values that are key-subsets / prefixes of one another
         s = {
             "types": ["doc", "para", "widget", "text"],
@@ -261,7 +264,7 @@ def scope(model, family: str, schema_id: str, size: int, **over) -> dict:
 
 def families_for(schema_id: str) -> list[str]:
     return {
-        "basic": ["blocks", "blocks2", "long", "marks3", "pcode", "inline", "inline_s", "astral", "links"],
+        "basic": ["blocks", "blocks2", "long", "marks3", "pcode", "lowbyte", "inline", "inline_s", "astral", "links"],
         "list": ["blocks", "blocks2", "long", "marks3", "inline", "inline_s", "lists", "lists_q", "astral"],
         "strict_hb": ["strict"],
         "title": ["title"],
